@@ -173,6 +173,12 @@ template <class T> bool allZero(const T& v) { const unsigned char* p = reinterpr
 // a configuration TU may force the block-size argument of every generated case (-1 = automatic); 0 = no forcing
 inline long& forcedBlockSize() { static long v = 0; return v; }
 
+// largest tree height used for deep sparse trees: indices must fit 63 bits (Dim*(H-1) <= 62), the configuration shifts an int by H-1
+// (H <= 31), and the leaf width must stay well above the resolution of the coordinate type (float: 2^-20 of the box)
+template <class Real> inline long deepHeightFor(int D) {
+    const long byIndex = std::min<long>(31, 62 / D + 1);
+    return sizeof(Real) == 4 ? std::min<long>(byIndex, 21) : byIndex;
+}
 // number of threads of the OpenMP runtime the engine is linked with (no-op in engines built without -fopenmp)
 #ifdef _OPENMP
 } // namespace tbx
